@@ -1,5 +1,7 @@
 #!/usr/bin/env python3
-"""Builds /verif/seeded/RESULTS.md from seeded/*/meta.json and seeded/*/eval.txt."""
+"""Builds /verif/seeded/RESULTS.md from seeded/*/meta.json, seeded/*/eval_own.txt (latest confirmation
+and the check of the seed's own property, tools/eval_own.sh) and seeded/*/eval.txt (an earlier run of all
+twenty quick checks, tools/eval_all_seeds.sh, where one exists)."""
 import json, os, re
 root = '/verif/seeded'
 rows = []
@@ -8,20 +10,29 @@ for d in sorted(os.listdir(root)):
     if not os.path.isdir(p):
         continue
     meta = json.load(open(os.path.join(p, 'meta.json')))
-    ev = open(os.path.join(p, 'eval.txt')).read().strip() if os.path.exists(os.path.join(p, 'eval.txt')) else ''
-    det = re.findall(r'(C\d\d):DETECTED', ev)
+    read = lambda n: open(os.path.join(p, n)).read().strip() if os.path.exists(os.path.join(p, n)) else ''
+    own_ev, all_ev = read('eval_own.txt'), read('eval.txt')
+    ev = own_ev or all_ev
+    prop = meta.get('property', '?')
+    own_det = re.findall(r'(C\d\d):DETECTED', own_ev)
+    all_det = re.findall(r'(C\d\d):DETECTED', all_ev)
     suite = re.search(r'suite\[(.*?)\]', ev)
     dw = re.search(r'demo_with_patch_exit=(\d+)', ev)
     dwo = re.search(r'demo_without_patch_exit=(\d+)', ev)
-    rows.append((d, meta.get('property', '?'), meta.get('summary', '')[:160].replace('|', '/'), suite.group(1) if suite else '?', dw.group(1) if dw else '?', dwo.group(1) if dwo else '?', ' '.join(det) if det else '(none)'))
-    meta['verif'] = {'confirmed_in_scratch_worktree': ev, 'detected_by': det}
+    own = 'yes' if prop in own_det else ('yes (earlier run)' if not own_ev and prop in all_det else 'NO')
+    others = sorted(set(all_det + own_det) - {prop})
+    rows.append((d, prop, meta.get('summary', '')[:160].replace('|', '/').replace('\n', ' '), suite.group(1) if suite else '?', dw.group(1) if dw else '?', dwo.group(1) if dwo else '?', own, ' '.join(others) if others else '-'))
+    meta['verif'] = {'confirmed_in_scratch_worktree': ev, 'own_property_check_detects': own, 'also_detected_by': others}
     json.dump(meta, open(os.path.join(p, 'meta.json'), 'w'), indent=1)
 with open(os.path.join(root, 'RESULTS.md'), 'w') as f:
     f.write('# Seeded property-breaking changes: confirmation and detection\n\n')
-    f.write('Each change was confirmed with `tools/eval_seed.sh` in a scratch worktree of /repo (repository suite passes with it; demo exit code with / without the change) and every quick check was run against it.\n\n')
-    f.write('| seed | breaks | change | suite with change | demo with | demo without | quick checks that report a VIOLATION |\n|---|---|---|---|---|---|---|\n')
+    f.write('Each change was confirmed in an isolated scratch worktree of /repo (`tools/eval_seed.sh`): the repository suite passes with it; the demo fails with it (exit 101) and passes without it (exit 0). "own check" = the quick check of the property the change was written against, run against the change with the current engine (`tools/eval_own.sh`). "other checks" = further quick checks that reported a VIOLATION in an earlier run of all twenty checks (`tools/eval_all_seeds.sh`; rounds 1-4 only, engine of that time).\n\n')
+    f.write('| seed | breaks | change | suite with change | demo with | demo without | own check detects | other checks that alarmed |\n|---|---|---|---|---|---|---|---|\n')
     for r in rows:
         f.write('| ' + ' | '.join(r) + ' |\n')
-    own = sum(1 for r in rows if r[1] in r[6].split())
-    f.write(f'\n{len(rows)} seeds; {own} detected by the check of the property they were written against; {sum(1 for r in rows if r[6] != "(none)")} detected by at least one check.\n')
+    n_own = sum(1 for r in rows if r[6].startswith('yes'))
+    f.write(f'\n{len(rows)} seeds; {n_own} detected by the check of the property they were written against.\n')
+    missed = [r[0] for r in rows if not r[6].startswith('yes')]
+    if missed:
+        f.write('Not detected by their own check: ' + ', '.join(missed) + ' (see DESIGN.md section 6.1).\n')
 print(len(rows), 'seeds')
